@@ -296,3 +296,88 @@ def np_zeros(interp, args, kwargs, node):
         interp.ctx.oblige(f"{short}/call-pre[numpy.zeros.nonnegative]@L{getattr(node, 'lineno', '?')}", n.term >= 0,
                           kind="call-pre", line=getattr(node, "lineno", None))
     return interp.born(VList(SymSeq(n.term, lambda k: z, ek), "ndarray"))
+
+
+# ---- uninitialised arrays and 2-D arrays ----------------------------------------------------------------------
+
+class VMatrix(VObj):
+    """2-D numeric array given cell-wise: cell(r, c) -> Value"""
+
+    def __init__(self, nrows, ncols, cell):
+        super().__init__("ndarray2d")
+        self.nrows, self.ncols, self.cell = nrows, ncols, cell
+
+
+@extern("numpy.empty")
+def np_empty(interp, args, kwargs, node):
+    shape = args[0]
+    ctx = interp.ctx
+    ctx.assumed.add("extern:numpy.empty(shape, dtype) is a fresh array of that shape with arbitrary content; the value stored by a[k] = v "
+                    "is v (dtype conversion / overflow not modelled)")
+    if isinstance(shape, VInt):
+        f = ctx.fresh_fun("empty", z3.IntSort(), z3.RealSort())
+        if not interp.spec_mode:
+            short = (interp.current_qualname or "").replace("pyrepseq.", "")
+            ctx.oblige(f"{short}/call-pre[numpy.empty.nonnegative]@L{getattr(node, 'lineno', '?')}", shape.term >= 0,
+                       kind="call-pre", line=getattr(node, "lineno", None))
+        return interp.born(VList(SymSeq(shape.term, lambda k: VReal(f(k), True), vec.T_RealT(np=True)), "ndarray"))
+    if isinstance(shape, VTuple) and len(shape.items) == 2:
+        f = ctx.fresh_fun("empty2", z3.IntSort(), z3.IntSort(), z3.RealSort())
+        m = VMatrix(to_int(shape.items[0]), to_int(shape.items[1]), lambda r, c: VReal(f(r, c), True))
+        return interp.born(m)
+    raise Unsupported("np.empty shape")
+
+
+def _matrix_setitem(interp, base, idx, v, node):
+    if isinstance(base, VMatrix) and isinstance(idx, VTuple) and len(idx.items) == 2:
+        interp.check_mutable_target(base, node, "[i, j] =")
+        r0, c0 = to_int(idx.items[0]), to_int(idx.items[1])
+        if not interp.spec_mode:
+            ok = z3.And(r0 >= 0, r0 < base.nrows, c0 >= 0, c0 < base.ncols)
+            if not interp.ctx.decide(ok, getattr(node, "lineno", "")):
+                raise_py(interp, "IndexError", "index out of bounds", node)
+        old = base.cell
+        base.cell = lambda r, c: interp.v_ite(z3.And(r == r0, c == c0), v, old(r, c))
+        return True
+    return None
+
+
+E.HOOKS["setitem"].append(_matrix_setitem)
+
+
+def _matrix_index(interp, base, idx, node):
+    if isinstance(base, VMatrix) and isinstance(idx, VTuple) and len(idx.items) == 2:
+        return base.cell(to_int(idx.items[0]), to_int(idx.items[1]))
+    return None
+
+
+E.HOOKS["index"].append(_matrix_index)
+
+
+class MatrixT(vec.T_SeqT.__mro__[1]):
+    """fresh 2-D real array (for loop-invariant havoc)"""
+
+    def family(self, name, ctx, psorts):
+        nr, nc = ctx.fresh(name + "_nrows", z3.IntSort()), ctx.fresh(name + "_ncols", z3.IntSort())
+        f = ctx.fresh_fun(name + "_cell", z3.IntSort(), z3.IntSort(), z3.RealSort())
+        ctx.assume(z3.And(nr >= 0, nc >= 0))
+        return lambda p: VMatrix(nr, nc, lambda r, c: VReal(f(r, c), True))
+
+    def decode(self, model, value):
+        return {"t": "opaque", "tag": "ndarray2d"}
+
+
+from . import types as _T
+_T.NAMESPACE.update(MatrixT=MatrixT)
+
+
+@S.spec("cell")
+def _cell(interp, args, kwargs, node):
+    m, r, c = args
+    return m.cell(to_int(r), to_int(c))
+
+
+@S.spec("shape2")
+def _shape2(interp, args, kwargs, node):
+    m = args[0]
+    return VTuple([VInt(m.nrows), VInt(m.ncols)])
